@@ -190,6 +190,10 @@ const LEAN_RESERVED: &[&str] = &[
     "isLower", "allAlpha", "allDigit", "allAlnum", "tinyOk", "Bytes", "Res", "Err", "LangId", "ExtType",
     "Language", "Script", "Region", "Variant", "parseKey", "parseType", "parseAttribute", "isType",
     "isAttribute", "parseTKey", "parseTValue", "isLanguageSubtag", "parsePrivate", "decide", "not", "and", "or",
+    "attribute", "universe", "example", "abbrev", "inductive", "opaque", "axiom", "mutual", "noncomputable", "partial",
+    "unsafe", "export", "notation", "infix", "infixl", "infixr", "prefix", "postfix", "nomatch", "nofun", "suffices",
+    "termination_by", "decreasing_by", "fuel", "rest", "list_", "splitOn", "vecInsert", "vecRemove", "collectOpt",
+    "sortBytes", "dedupAdj", "AMap", "UExt", "TExt", "ExtMap", "Locale", "open", "omit", "include", "elab", "initialize",
 ];
 
 impl<'a> Tr<'a> {
@@ -388,6 +392,29 @@ impl<'a> Tr<'a> {
                     }
                 }
             }
+            syn::Type::Infer(_) => Ok(Ty::Infer),
+            syn::Type::ImplTrait(it) => {
+                // `impl ExactSizeIterator<Item = T>` / `impl Iterator<Item = T>`: the list of the items
+                for b in &it.bounds {
+                    if let syn::TypeParamBound::Trait(tb) = b {
+                        if let Some(last) = tb.path.segments.last() {
+                            if last.ident == "ExactSizeIterator" || last.ident == "Iterator" || last.ident == "DoubleEndedIterator" {
+                                if let syn::PathArguments::AngleBracketed(a) = &last.arguments {
+                                    for g in &a.args {
+                                        if let syn::GenericArgument::AssocType(at) = g {
+                                            if at.ident == "Item" {
+                                                let t = self.resolve_ty(&at.ty)?;
+                                                return Ok(Ty::List(Box::new(t)));
+                                            }
+                                        }
+                                    }
+                                }
+                            }
+                        }
+                    }
+                }
+                self.unsup(format!("type `{}`", norm_tokens(t)))
+            }
             syn::Type::Tuple(t) => {
                 if t.elems.is_empty() {
                     return Ok(Ty::Unit);
@@ -492,6 +519,20 @@ impl<'a> Tr<'a> {
             }
             self.deps.insert(format!("enum {}", name), info.tokens);
             return Ok(Ty::Named(name.to_string()));
+        }
+        // a type alias of the current file (`type PartsTuple = (..);`)
+        if let Ok(f) = self.reg.file(self.file) {
+            for it in &f.items {
+                if let syn::Item::Type(ta) = it {
+                    if ta.ident == name && ta.generics.params.is_empty() {
+                        let mut bare = ta.clone();
+                        bare.attrs.clear();
+                        self.deps.insert(format!("type {}", name), norm_tokens(&bare));
+                        let ty = (*ta.ty).clone();
+                        return self.resolve_ty(&ty);
+                    }
+                }
+            }
         }
         self.unsup(format!("unknown type `{}`", name))
     }
